@@ -52,6 +52,7 @@
       `ruleEntity_window`, `ruleBackticks_window` (code-span cache: any `CacheInv` cache),
       `parseInlineTail_window` (the `(dest "title")` tail; needs only boundaries, and `Link.DecOk` of
       the decoder — `decOk_unescapeAll`).  Each hypothesis is shown necessary by an example there.
+      Packaged for `runRule`: `runRule_flat_window`.
 
    E. WHAT `ChainCoherent` MEANS (`Lemmas/MemoSafeFires.lean`): `silent_declines` — `RuleId.firesAt` is
       sound (a rule declines in look-ahead mode at a first character not in its list);
@@ -78,6 +79,9 @@
   made over the nesting limit (`k ↦ pos_max`) and in frames at `level ≥ max_nesting` (no rule runs
   there) — in 45 million runs: exhaustive over `[]()!a` to length 7, over `[]!a(` to length 8, over
   ``[]a` `` to length 8, random over ``[]()!a`*\ `` (length 14) and ``[]!a` `` (length 12).
+  The entry check is STRICTLY stronger than the memo check (`Lemmas/MemoSafeEntry.lean`: for the
+  incoherent witness chain, ``[`[a`a`](u) ` `` enters the label `[3,7)` with the crossing entry `6 ↦ 13`,
+  which the label run never looks up); for coherent chains no run fails it.
   (L3) is NOT necessary for `memoSafe` and FAILS without coherence: `laminar_needs_coherence` below
   (emphasis on `[` in front of the link rule: the real delimiter run steps INTO a look-ahead link
   token; the memo ends up crossing, yet no hit lies beyond `pos_max`).
@@ -142,6 +146,31 @@ theorem frame_entry_closed_of_laminar (cfg : Cfg) (f fuel : Nat) (st : IState) (
     (h : parseLink cfg (fun s => skipTokenG cfg true f s) fuel st pos en = .ok (some res, st'))
     (hlam : Laminar st'.cache) : Closed st'.cache res.labelStart res.labelEnd :=
   parseLink_entry_closed_G cfg f fuel st pos en hi hb hle h hlam
+
+/-! ## D, packaged: every rule without look-ahead recursion, as `runRule` sees it -/
+
+/-- **window independence of the flat rules** (everything but link / image), in look-ahead mode: the
+    verdict at `pos` under `pos_max = M` that ends at or before `M'` is the verdict under
+    `pos_max = M'`, when the character at `M'` is `]` or `M' = M` (`WinHyp`).  Entity needs `EntStop`
+    (its regexes ignore `pos_max`), code spans a sound closer table and no marker run cut by the outer
+    `pos_max`; emphasis and `linkEnd` never answer in look-ahead mode. -/
+theorem runRule_flat_window {cfg : Cfg} {skip tok : IState → Except Panic IState} {fuel : Nat}
+    (id : RuleId) (hflat : id.isFlat = true) {st : IState} {M' : Nat} (h : WinHyp st M')
+    (hstop : EntStop st.src st.posMax) (hinv : CodePair.CacheInv '`' st.src st.backticks)
+    (hnc : st.posMax = st.backticks.scannedTo ∨ CodePair.NoCut '`' st.src st.posMax) (n : Nat) :
+    ((∃ s1, runRule cfg skip tok fuel id st true = .ok (some n, s1)) ∧ st.pos + n ≤ M') ↔
+      (∃ s2, runRule cfg skip tok fuel id (st.shrink M') true = .ok (some n, s2)) := by
+  cases id with
+  | text => simp only [runRule, liftR_ok]; exact ruleText_window h n
+  | newline => simp only [runRule, liftR_ok]; exact ruleNewline_window h n
+  | escape => simp only [runRule, liftR_ok]; exact ruleEscape_window h n
+  | backticks => simp only [runRule, liftR_ok]; exact ruleBackticks_window h hinv hnc n
+  | emph mk csw => simp [runRule, liftR_ok, ruleEmph_silent]
+  | link => simp [RuleId.isFlat] at hflat
+  | image => simp [RuleId.isFlat] at hflat
+  | linkEnd => simp [runRule]
+  | autolink => simp only [runRule, liftR_ok]; exact ruleAutolink_window h n
+  | entity => simp only [runRule, liftR_ok]; exact ruleEntity_window cfg h hstop n
 
 /-! ## executable versions, examples -/
 
